@@ -171,12 +171,19 @@ type genTriple struct {
 	Marker  string   `json:"marker"`
 	NoDir   bool     `json:"no_dir"` // single-file output: no directory management
 	Synth   bool     `json:"synth"`  // the schema is synthesised from (SchemaSeed, SchemaMask) of the scenario
+	Base    string   `json:"base,omitempty"` // name without the (seed/mask) suffix, for counters
+	SynthFiles bool  `json:"synth_files"`    // ... and laid out as one file per combinator in an input directory (more files than CPUs)
+	SynthAnnotate bool `json:"synth_annotate"` // ... with custom annotations on its functions (the --annotations option)
 }
 
 // synthSchema derives a small schema from a seed: a universe of eight types with seed-chosen namespaces and names
 // (so that file names of every shape occur), of which mask selects the ones present. Two masks of one seed model
 // an evolving schema: types appear and disappear, the others keep their text.
-func synthSchema(seed uint64, mask uint8) string {
+func synthSchema(seed uint64, mask uint8) string { return strings.Join(synthSchemaParts(seed, mask, false), "") }
+
+// synthSchemaParts returns the schema as a header part, one part per present type and one per function, so that
+// the same schema can also be laid out as many files of one input directory.
+func synthSchemaParts(seed uint64, mask uint8, annotate bool) []string {
 	r := rand.New(rand.NewPCG(seed, 16))
 	syl := []string{"o", "ob", "or", "op", "obj", "da", "ta", "ke", "mi", "zu", "ex", "lo", "d", "x", "h", "cpp", "go", "php"}
 	nss := []string{"", "", "a", "b", "o", "ox", "obj"}
@@ -207,9 +214,9 @@ func synthSchema(seed uint64, mask uint8) string {
 		}
 		return t.ns + "." + n
 	}
-	var b strings.Builder
-	b.WriteString("---types---\nint#a8509bda ? = Int;\nstring#b5286e24 ? = String;\n")
-	var fns strings.Builder
+	parts := []string{"---types---\nint#a8509bda ? = Int;\nstring#b5286e24 ? = String;\n"}
+	var fns []string
+	customs := []string{"alpha", "beta", "gamma", "delta"}
 	for i, t := range us {
 		nf := r.IntN(4)
 		var fields []string
@@ -226,15 +233,20 @@ func synthSchema(seed uint64, mask uint8) string {
 		if mask&(1<<i) == 0 {
 			continue
 		}
-		fmt.Fprintf(&b, "%s %s = %s;\n", full(t, false), strings.Join(fields, " "), full(t, true))
-		if wantFn {
+		parts = append(parts, fmt.Sprintf("---types---\n%s %s = %s;\n", full(t, false), strings.Join(fields, " "), full(t, true)))
+		if wantFn || annotate {
 			fn := ty{ns: t.ns, name: "get" + strings.ToUpper(t.name[:1]) + t.name[1:]}
-			fmt.Fprintf(&fns, "@any %s q:int = %s;\n", full(fn, false), full(t, true))
+			ann := "@any"
+			if annotate {
+				ann = "@" + customs[(i+int(seed%4))%4] + " @" + customs[(i+1+int(seed%3))%4] + " @any"
+				if i%3 == 0 {
+					ann = "@" + customs[i%4] + " @read"
+				}
+			}
+			fns = append(fns, fmt.Sprintf("---functions---\n%s %s q:int = %s;\n", ann, full(fn, false), full(t, true)))
 		}
 	}
-	b.WriteString("---functions---\n")
-	b.WriteString(fns.String())
-	return b.String()
+	return append(parts, fns...)
 }
 
 // resolved returns the triple with its inputs in place: synthetic schemas are written to the scratch directory.
@@ -243,10 +255,23 @@ func (g *genCtx) resolved(t genTriple, seed uint64, mask uint8) genTriple {
 		return t
 	}
 	path := filepath.Join(g.dir, fmt.Sprintf("synth-%016x-%02x.tl", seed, mask))
-	if _, err := os.Stat(path); err != nil {
-		_ = os.WriteFile(path, []byte(synthSchema(seed, mask)), 0o644)
+	if t.SynthFiles {
+		path = filepath.Join(g.dir, fmt.Sprintf("synthdir-%016x-%02x", seed, mask))
+		if _, err := os.Stat(path); err != nil {
+			_ = os.MkdirAll(filepath.Join(path, "sub"), 0o755)
+			for i, part := range synthSchemaParts(seed, mask|0x7f, t.SynthAnnotate) {
+				name := filepath.Join(path, fmt.Sprintf("f%02d.tl", (i*7)%23))
+				if i%4 == 3 {
+					name = filepath.Join(path, "sub", fmt.Sprintf("g%02d.tl", i))
+				}
+				_ = os.WriteFile(name, []byte(part), 0o644)
+			}
+		}
+	} else if _, err := os.Stat(path); err != nil {
+		_ = os.WriteFile(path, []byte(strings.Join(synthSchemaParts(seed, mask, t.SynthAnnotate), "")), 0o644)
 	}
 	t.Inputs = []string{path}
+	t.Base = t.Name
 	t.Name = fmt.Sprintf("%s[%016x/%02x]", t.Name, seed, mask)
 	return t
 }
@@ -270,7 +295,7 @@ func triples() []genTriple {
 		{Name: "go-schema-split", Tool: "tl2gen", Args: append(append([]string{}, goBase...), "--split-internal", "--pkgPath=github.com/VKCOM/tl/x/schema/tl", "--generateByteVersions=ch_proxy.,ab."), Inputs: []string{tlsDir + "schema.tl"}, Marker: "meta/meta.go"},
 		{Name: "go-bootstrap-nobasic", Tool: "tl2gen", Args: []string{"--language=go", "--copyrightPath=/repo/COPYRIGHT", "--pkgPath=github.com/VKCOM/tl/x/tlo/tl"}, Inputs: []string{"/repo/internal/tlast/tls.tl"}, Marker: "meta/meta.go"},
 		{Name: "go-cycles-split", Tool: "tl2gen", Args: append(append([]string{}, goBase...), "--split-internal", "--pkgPath=github.com/VKCOM/tl/x/cyc/tl", "--generateRandomCode"), Inputs: []string{xsDir + "cycles.tl"}, Marker: "meta/meta.go"},
-		{Name: "go-cycles-split-bytes", Tool: "tl2gen", Args: append(append([]string{}, goBase...), "--split-internal", "--pkgPath=github.com/VKCOM/tl/x/cyc/tl", "--generateByteVersions=*"), Inputs: []string{xsDir + "cycles.tl", tlsDir + "cases.tl"}, Marker: "meta/meta.go"},
+		{Name: "go-cycles-split-bytes", Tool: "tl2gen", Args: append(append([]string{}, goBase...), "--split-internal", "--pkgPath=github.com/VKCOM/tl/x/cyc/tl", "--generateByteVersions=*"), Inputs: []string{xsDir + "cycles.tl"}, Marker: "meta/meta.go"},
 		{Name: "go-dirs", Tool: "tl2gen", Args: append(append([]string{}, goBase...), "--pkgPath=github.com/VKCOM/tl/x/dirs/tl"), Inputs: []string{xsDir + "dirA", xsDir + "dirB", xsDir + "dirC"}, Marker: "meta/meta.go"},
 		{Name: "canonical-dirs", Tool: "tl2gen", Args: []string{"--language=canonical"}, Inputs: []string{xsDir + "dirA", xsDir + "dirB", xsDir + "dirC"}, Outfile: "dirs_canonical.tl", NoDir: true},
 		{Name: "tlo-dirs", Tool: "tl2gen", Args: []string{"--language=tlo", "--schemaTimestamp=301822800"}, Inputs: []string{xsDir + "dirC", xsDir + "dirA", xsDir + "dirB"}, Outfile: "dirs.tlo", NoDir: true},
@@ -289,6 +314,11 @@ func triples() []genTriple {
 		{Name: "php-synth", Tool: "tl2gen", Synth: true, Args: []string{"--language=php", "--php-rpc-support=true", "--php-serialization-bodies=true", "--php-generate-fetchers=true", "--php-generate-switcher=true", "--php-use-builtin-data-providers=true", "--php-add-type-comments=true", "--php-generate-fetchers-echo-comment=false"}, Marker: "VK/TL/RpcFunctionFetcher.php"},
 		{Name: "cpp-synth", Tool: "tlgen", Synth: true, Args: []string{"-language=cpp", "--cpp-generate-meta=true", "--cpp-generate-factory=true"}, Marker: "tlgen2_version.txt"},
 		{Name: "php-legacy-synth", Tool: "tlgen", Synth: true, Args: []string{"--language=php", "--php-rpc-support=true", "--php-serialization-bodies=true", "--php-generate-fetchers=true", "--php-generate-switcher=true", "--php-use-builtin-data-providers=true", "--php-add-type-comments=true", "--php-generate-fetchers-echo-comment=false", "--php-serialization-bodies-whitelist="}, Marker: "tlgen2_version.txt"},
+		{Name: "canonical-synth-files", Tool: "tl2gen", Synth: true, SynthFiles: true, Args: []string{"--language=canonical"}, Outfile: "synth_canonical.tl", NoDir: true},
+		{Name: "tlo-synth-files", Tool: "tl2gen", Synth: true, SynthFiles: true, Args: []string{"--language=tlo", "--schemaTimestamp=301822800"}, Outfile: "synth.tlo", NoDir: true},
+		{Name: "go-synth-files", Tool: "tl2gen", Synth: true, SynthFiles: true, Args: append(append([]string{}, goBase...), "--pkgPath=github.com/VKCOM/tl/x/synthf/tl", "--generateRPCCode"), Marker: "meta/meta.go"},
+		{Name: "go-synth-annotations", Tool: "tl2gen", Synth: true, SynthAnnotate: true, Args: append(append([]string{}, goBase...), "--pkgPath=github.com/VKCOM/tl/x/syntha/tl", "--generateRPCCode", "--annotations=alpha,beta,gamma,delta"), Marker: "meta/meta.go"},
+		{Name: "cpp-synth-files", Tool: "tlgen", Synth: true, SynthFiles: true, Args: []string{"-language=cpp"}, Marker: "tlgen2_version.txt"},
 		{Name: "tlo-legacy-cases", Tool: "tlgen", Args: []string{"--language=cpp"}, Inputs: []string{tlsDir + "cases.tl"}, Marker: "tlgen2_version.txt", Outfile: "+tlo"},
 	}
 	var out []genTriple
@@ -329,6 +359,13 @@ type plantSpec struct {
 
 // a directory next to the output directory that foreign symbolic links point into; nothing in it may ever change
 const elsewhere = simRoot + "/work/elsewhere"
+
+// dotPlants: a directory that is not ours and holds only hidden files (a fresh clone, an editor's settings)
+func dotPlants(r *rand.Rand) []plantSpec {
+	all := []plantSpec{{Path: ".gitkeep", Content: ""}, {Path: ".git/HEAD", Content: "ref: refs/heads/master\n"}, {Path: ".git/config", Content: "[core]\n"}, {Path: ".env", Content: "SECRET=1\n"}, {Path: ".idea/workspace.xml", Content: "<project/>"}}
+	r.Shuffle(len(all), func(i, j int) { all[i], all[j] = all[j], all[i] })
+	return all[:1+r.IntN(len(all))]
+}
 
 func linkPlant(r *rand.Rand) plantSpec {
 	switch r.IntN(3) {
@@ -403,6 +440,9 @@ func (genEngine) Gen(seed uint64, params map[string]any) json.RawMessage {
 		ng := 2 + r.IntN(5)
 		for i := 0; i < ng; i++ {
 			h := histGen{Variant: genVariant(r, 0), Files: synthFiles(r, 10, "meta/marker.txt")}
+			if i == 0 && r.IntN(8) == 0 {
+				h.Plant = append(h.Plant, dotPlants(r)...) // somebody else's directory that only holds hidden files
+			}
 			if i > 0 && r.IntN(3) == 0 {
 				switch r.IntN(5) {
 				case 4:
@@ -464,6 +504,9 @@ func (genEngine) Gen(seed uint64, params map[string]any) json.RawMessage {
 				ti = sc.History[i-1].Triple // regenerate the same (or, for synthetic schemas, the next version of the same family)
 			}
 			h := histGen{Triple: ti, Variant: genVariant(r, len(ts[ti].Inputs))}
+			if i == 0 && r.IntN(8) == 0 && params["enumerate"] != true {
+				h.Plant = append(h.Plant, dotPlants(r)...)
+			}
 			if ts[ti].Synth {
 				h.SchemaSeed, h.SchemaMask = r.Uint64(), uint8(1+r.IntN(255))
 				if i > 0 && sc.History[i-1].Triple == ti {
@@ -692,6 +735,13 @@ func diffTrees(a, b map[string][]byte) string {
 	return ""
 }
 
+func (t genTriple) baseName() string {
+	if t.Base != "" {
+		return t.Base
+	}
+	return t.Name
+}
+
 func (t genTriple) argsFor(outdir string, v variant) []string {
 	args := append([]string{}, t.Args...)
 	if t.Outfile == "+tlo" {
@@ -792,7 +842,7 @@ func execC15(g *genCtx, sc genScenario, logf func(string, ...any), fail func(str
 	if ref.Err != "" || ref.Outcome != "done" {
 		// the generator rejects or cannot handle this triple: not a determinism question (C14 territory)
 		g.probes["probe.reference_generation_failed"]++
-		g.probes["probe.reference_generation_failed."+tr.Name]++
+		g.probes["probe.reference_generation_failed."+tr.baseName()]++
 		logf("reference failed: %s", ref.Err)
 		out.Sample = map[string]any{"triple": tr.Name, "reference_error": ref.Err}
 		return
@@ -837,7 +887,7 @@ func execC15(g *genCtx, sc genScenario, logf func(string, ...any), fail func(str
 		}
 		out.Nontrivial = true
 		g.probes["probe.c15_variant_outputs_compared"]++
-		g.probes["probe.c15_compared."+tr.Name]++
+		g.probes["probe.c15_compared."+tr.baseName()]++
 		g.probes["probe.c15_files_compared"] += len(tree)
 		_ = os.Remove(vd)
 	}
